@@ -38,6 +38,7 @@ pub fn prop() -> Prop {
             Tier::Thorough => 400,
         },
         required_probes: &["signers_gt_t", "non_prefix_subset", "t_eq_n", "keygen_dkg", "keygen_split", "keygen_dealer", "concurrent_sessions", "ids_derived", "ids_u16ext", "ids_scalar", "msg_empty", "third_party_verified"],
+        prepare: None,
     }
 }
 
